@@ -8,7 +8,7 @@ from . import C07
 
 ID = 'C11'
 PROFILES = ['dev']
-BOUNDS = {'text level': 'through the real lexer + parser + interpreter: poetic number texts of <= 2 (thorough 3) elements out of 26 spellings (quick: all 1-element and every 4th 2-element text; thorough: all 2-element and every 8th 3-element text) (word lengths 1, 2, 3, 9, 10, 11, 20; apostrophes inside / leading / trailing; \'s / \'re suffixes; hyphens; keywords as words; capitals; non-ASCII letters), each optionally followed by a period or a comma, plus 192 texts with a digit run / `formula-1` / the list keywords `and` / `or` as the second chunk, in `X is ...` and `Rock .. like ...`: the printed number equals the numeral the words spell (exact for integers, <= 4 ulp otherwise); long literals of 3..=16 (thorough 40) words with 4 period placements; `X says <text>` with 0..=2 (thorough 3) symbolic characters (any of ASCII ∪ R except line feed, quote, open parenthesis): the literal is exactly the text; 27 right-hand sides starting with a literal word / negative number are ordinary expressions',
+BOUNDS = {'text level': 'through the real lexer + parser + interpreter: poetic number texts of <= 2 (thorough 3) elements out of 26 spellings (quick: all 1-element and every 4th 2-element text; thorough: all 2-element and every 8th 3-element text) (word lengths 1, 2, 3, 9, 10, 11, 20; apostrophes inside / leading / trailing; \'s / \'re suffixes; hyphens; keywords as words; capitals; non-ASCII letters), each optionally followed by a period or a comma, plus 192 texts with a digit run / `formula-1` / the list keywords `and` / `or` as the second chunk, in `X is ...` and `Rock .. like ...`: the printed number equals the numeral the words spell (exact for integers, <= 4 ulp otherwise); long literals of 3..=24 (thorough 40) words with 4 period placements; `X says <text>` with 0..=2 (thorough 3) symbolic characters (any of ASCII ∪ R except line feed, quote, open parenthesis): the literal is exactly the text; 27 right-hand sides starting with a literal word / negative number are ordinary expressions',
           'digit rule': 'literals of 1..=6 elements, every element kind symbolic (Word / WordSuffix / Dot) under the parser\'s well-formedness (no leading suffix, no suffix right after a period), word lengths symbolic in 0..=40 (stub for word_len, which is checked separately)',
           'word_len': 'words of 0..=6 symbolic characters over {a, apostrophe, é}',
           'accuracy': 'literals of 1..=3 (thorough 4) digit-bearing words, every digit symbolic 0..=9, the period at every position: |value - numeral| <= 4 ulp, exact when there is no fractional part',
@@ -100,6 +100,7 @@ def h_rule(vm, mir, n):
         before_dot += 1
     e = before_dot - 1
     acc = -0.0; idx = 0
+    N = z3.BitVecVal(0, 64); ndig = 0
     for it in items:
         if it[0] == 'dot': continue
         total = None
@@ -110,9 +111,25 @@ def h_rule(vm, mir, n):
         digit = z3.URem(total, z3.BitVecVal(10, 64))
         term = z3.fpMul(RNE, z3.fpUnsignedToFP(RNE, digit, F64), z3.FPVal(powi(10.0, e - idx), F64))
         acc = vm.fbinop('Add', acc, term); idx += 1
+        N = N * 10 + digit; ndig += 1
     ck = C07.Checker(vm, d)
-    ck.bad('digit-rule', 'value is not the sum of (word length incl. suffixes mod 10) x 10^(position relative to the first period)', vm.fp(r) == vm.fp(acc))
     vm.witness = {'rule-done'}
+    # (1) cheap and sufficient: bit-identical to the left-to-right sum of digit x 10^position (itself within the tolerance: accuracy jobs)
+    v1 = vm.must_hold(vm.fp(r) == vm.fp(acc), 'digit-rule')
+    if v1 is None: return ck.out
+    # (2) not that sum (another summation order, a scaled integer, ...): judge by the statement itself -- exact for integers, <= 4 ulp of
+    #     the decimal numeral otherwise.  The model of (1) is tried first; only if it is within the tolerance is the FP query needed.
+    k10 = max(ndig - before_dot, 0)
+    ref = z3.fpDiv(RNE, z3.fpUnsignedToFP(RNE, N, F64), z3.FPVal(float(10 ** k10), F64))
+    a, b = z3.fpToIEEEBV(vm.fp(r)), z3.fpToIEEEBV(ref)
+    diff = z3.If(z3.UGE(a, b), a - b, b - a)
+    tol = (vm.fp(r) == ref) if k10 == 0 else z3.ULE(diff, 4)
+    what = 'value is not the numeral spelt by (word length incl. suffixes mod 10) per digit, first period = decimal point (exact for integers, <= 4 ulp otherwise)'
+    try: within = z3.is_true(v1.model.eval(tol, model_completion=True))
+    except z3.Z3Exception: within = True
+    if not within:
+        ck.out.append(finding('violation', 'digit-rule', what, d(v1.model), vm.notes)); return ck.out
+    ck.bad('digit-rule', what, tol)
     return ck.out
 
 
@@ -328,7 +345,7 @@ def jobs(ctx, tier):
         js.append(Job(f'text/is/{k}', h_poetic_text, (mir, ch, 'is'), witness=['text-done'], str_mode='bounded', fuel=20_000_000, weight=20))
     for k, ch in enumerate(chunks(special_texts(), 36)):
         js.append(Job(f'text/special/{k}', h_poetic_text, (mir, ch, 'is'), witness=['text-done'], str_mode='bounded', fuel=20_000_000, weight=20))
-    for k, ch in enumerate(chunks(long_texts(16 if tier == 'quick' else 40), 8)):
+    for k, ch in enumerate(chunks(long_texts(24 if tier == 'quick' else 40), 8)):
         js.append(Job(f'text/long/{k}', h_poetic_text, (mir, ch, 'is'), witness=['text-done'], str_mode='bounded', fuel=20_000_000, weight=20))
     for k, ch in enumerate(chunks(texts[::7], 80)):
         js.append(Job(f'text/like/{k}', h_poetic_text, (mir, ch, 'like'), witness=['text-done'], str_mode='bounded', fuel=20_000_000, weight=20))
